@@ -26,6 +26,7 @@ use bytes::BytesMut;
 use serde_json::json;
 use std::alloc::{GlobalAlloc, Layout, System};
 use std::cell::Cell;
+use std::collections::HashMap;
 use std::convert::TryFrom;
 use std::io::{Read, Write};
 use std::net::{TcpListener, TcpStream};
@@ -38,7 +39,10 @@ use std::time::{Duration, Instant};
 use tokio_util::codec::Decoder;
 use umharness::util::*;
 use undermoon::common::batch::BatchStrategy;
-use undermoon::common::cluster::ClusterName;
+use undermoon::common::cluster::{ClusterName, MigrationMeta, Range, RangeList, RangeMap, SlotRange, SlotRangeTag};
+use undermoon::common::config::ClusterConfig;
+use undermoon::common::proto::{ClusterMapFlags, ProxyClusterMeta};
+use undermoon::common::utils::SLOT_NUM;
 use undermoon::protocol::verif_export::stateless::{parse_resp, ParseError};
 use undermoon::protocol::{
     new_simple_packet_codec, Array, BulkStr, Resp, RespCodec, RespIndex, RespPacket,
@@ -288,6 +292,43 @@ fn op_usize(b: &[u8]) -> String {
     }
 }
 
+fn parse_ranges(toks: &[&str]) -> Option<Vec<(usize, usize)>> {
+    toks.iter().map(|t| { let mut it = t.split('-'); let a = it.next()?.parse::<usize>().ok()?; let b = it.next()?.parse::<usize>().ok()?; if it.next().is_some() { None } else { Some((a, b)) } }).collect()
+}
+
+/// a `RangeList` holding exactly these ranges (no compaction: what the serde form delivers)
+fn raw_range_list(rs: &[(usize, usize)]) -> RangeList {
+    let mut l = RangeList::from_single_range(Range(0, 0));
+    *l.get_mut_ranges() = rs.iter().map(|(a, b)| Range(*a, *b)).collect();
+    l
+}
+
+/// numbers walked by the fill loop of the unpatched `RangeMap::from`
+fn range_walk(rs: &[(usize, usize)]) -> u128 {
+    rs.iter().map(|(a, b)| if a <= b { (*b - *a) as u128 + 1 } else { 0 }).sum()
+}
+
+fn op_rangemap(rs: &[(usize, usize)]) -> String {
+    if range_walk(rs) > 5_000_000 { return "skipped-unsafe".to_string(); }
+    let l = raw_range_list(rs);
+    match catch_unwind(AssertUnwindSafe(|| { let m = RangeMap::from(&l); (0..SLOT_NUM).filter(|s| m.contains_slot(*s)).count() })) {
+        Ok(n) => format!("ok contains={}", n),
+        Err(_) => "PANIC".to_string(),
+    }
+}
+
+/// F16d: the first start of the list lies above its last end (both below SLOT_NUM)
+fn pred_f16d(rs: &[(usize, usize)]) -> bool {
+    match (rs.first(), rs.last()) {
+        (Some(f), Some(l)) => f.0 < SLOT_NUM && l.1 < SLOT_NUM && f.0 > l.1,
+        _ => false,
+    }
+}
+/// F16e: some range reaches beyond 2^32
+fn pred_f16e(rs: &[(usize, usize)]) -> bool {
+    rs.iter().any(|(a, b)| a <= b && (*b - *a) as u128 >= (1u128 << 32)) || rs.iter().any(|(a, b)| a > b && (*a - *b) as u128 >= (1u128 << 32))
+}
+
 // ------------------------------------------------------------------------------------------
 // the child process
 // ------------------------------------------------------------------------------------------
@@ -471,6 +512,11 @@ impl Proxy {
         self.stderr_seen = t.lines().count();
         fresh
     }
+    /// is there an unread panic line on the child's stderr? (does not consume it)
+    fn panic_pending(&self) -> bool {
+        let t = std::fs::read_to_string(&self.stderr_path).unwrap_or_default();
+        t.lines().skip(self.stderr_seen).any(|l| l.contains("panicked at"))
+    }
     fn request(&self, data: &[u8], wait_ms: u64) -> Option<Vec<u8>> {
         let mut c = TcpStream::connect(("127.0.0.1", self.port)).ok()?;
         c.set_read_timeout(Some(Duration::from_millis(wait_ms))).ok()?;
@@ -542,6 +588,7 @@ fn run_conn(p: &mut Proxy, input: &[u8], k: usize, tail: Tail, nonce: u64) -> Co
     let mut replies = 0usize;
     let mut got_nonce = false;
     let mut quiet_until: Option<Instant> = None;
+    let mut panic_seen = false;
     loop {
         // evaluate what we have
         let (rs, _) = count_replies(&rbuf);
@@ -553,12 +600,18 @@ fn run_conn(p: &mut Proxy, input: &[u8], k: usize, tail: Tail, nonce: u64) -> Co
         if got_nonce || eof {
             break;
         }
-        if tail == Tail::Pending && replies >= k && quiet_until.is_none() {
-            quiet_until = Some(Instant::now() + Duration::from_millis(150));
+        if tail == Tail::Pending && replies >= k && quiet_until.is_none() && !panic_seen {
+            quiet_until = Some(Instant::now() + Duration::from_millis(250));
         }
         let now = Instant::now();
         let limit = match quiet_until { Some(q) => q.min(deadline), None => deadline };
         if now >= limit {
+            // a session task that is panicking closes the socket a little later: wait for that
+            if quiet_until.is_some() && now < deadline && p.panic_pending() {
+                quiet_until = None;
+                panic_seen = true;
+                continue;
+            }
             break;
         }
         let _ = c.set_read_timeout(Some((limit - now).max(Duration::from_millis(1))));
@@ -583,7 +636,7 @@ fn run_conn(p: &mut Proxy, input: &[u8], k: usize, tail: Tail, nonce: u64) -> Co
     if p.dead_within(50).is_some() {
         return done("aborted".into());
     }
-    if tail == Tail::Pending && quiet_until.is_some() && replies == k {
+    if tail == Tail::Pending && quiet_until.is_some() && !panic_seen && replies == k {
         return done(format!("pending {}", replies));
     }
     if tail == Tail::Pending && replies > k {
@@ -1123,10 +1176,23 @@ fn run_inproc_op(toks: &[&str], st: &mut Streams, op: &str) {
         ["name", h] => unhex(h).map(|b| op_name(&b)).unwrap_or_else(|| "bad-op".into()),
         ["clustername", h] => unhex(h).map(|b| op_clustername(&b).to_string()).unwrap_or_else(|| "bad-op".into()),
         ["usize", h] => unhex(h).map(|b| op_usize(&b)).unwrap_or_else(|| "bad-op".into()),
+        ["rangemap", rest @ ..] => match parse_ranges(rest) {
+            Some(rs) => {
+                let r = op_rangemap(&rs);
+                st.stats.count(&format!("out.rangemap.{}", r.split(' ').next().unwrap_or("?")));
+                if r == "PANIC" {
+                    let c = st.cases;
+                    st.stats.oracle_failure(c, "RangeMap::from panicked on a range list a client can send (compressed UMCTL SETCLUSTER)",
+                        if pred_f16d(&rs) { "F16d" } else { "" }, vec![op.to_string()]);
+                }
+                r
+            }
+            None => "bad-op".to_string(),
+        },
         ["utf8", h] => unhex(h).map(|b| if std::str::from_utf8(&b).is_ok() { "valid".to_string() } else { "invalid".to_string() }).unwrap_or_else(|| "bad-op".into()),
         _ => "bad-op".to_string(),
     };
-    if out == "PANIC" && !op.starts_with("parse") && !op.starts_with("decode") && !op.starts_with("slowlog") {
+    if out == "PANIC" && !op.starts_with("parse") && !op.starts_with("decode") && !op.starts_with("slowlog") && !op.starts_with("rangemap") {
         let c = st.cases;
         st.stats.oracle_failure(c, "in-process operation panicked", "", vec![op.to_string()]);
     }
@@ -1194,7 +1260,14 @@ fn inproc_stream(args: &Args, rng: &mut Rng) {
             }
             14 => (format!("name {}", hex(&{ let x = gen_name(rng); packets_of(&x.bytes).first().and_then(|c| c.first().cloned().flatten()).unwrap_or_default() })), "name"),
             15 => { let n = *rng.pick(&[0usize, 1, 30, 31, 32, 33, 100]); let v: Vec<u8> = (0..n).map(|_| *rng.pick(&[b'a', b'Z', b'0', b'@', b'-', b'_', b'.', b' ', 0xc3, 0xa9])).collect(); (format!("clustername {}", hex(&v)), "clustername") }
-            16 => (format!("usize {}", hex(&extreme_uint(rng))), "usize"),
+            16 => if rng.chance(1, 2) { (format!("usize {}", hex(&extreme_uint(rng))), "usize") } else {
+                let n = rng.range(1, 4) as usize;
+                let rs: Vec<String> = (0..n).map(|_| {
+                    let a = *rng.pick(&[0usize, 5, 100, 199, 300, 16383, 16384, 20000, 99999]);
+                    let b = *rng.pick(&[0usize, 7, 100, 199, 300, 16383, 16384, 20000, 99999]);
+                    format!("{}-{}", a, b) }).collect();
+                (format!("rangemap {}", rs.join(" ")), "rangemap")
+            },
             17 => { let v: Vec<u8> = match rng.below(3) { 0 => "１２".as_bytes().to_vec(), 1 => "ǆ1".as_bytes().to_vec(), _ => { let n = rng.range(0, 6) as usize; rng.bytes(n) } }; (format!("usize {}", hex(&v)), "usize.unicode") }
             _ => { let n = rng.range(0, 8) as usize; let mut v: Vec<u8> = (0..n).map(|_| *rng.pick(&[0x61u8, 0xc3, 0xa9, 0xe2, 0x82, 0xac, 0xf0, 0x9f, 0x98, 0x80, 0xed, 0xa0, 0x80, 0xc0, 0xf4, 0x90, 0xff])).collect(); if rng.chance(1, 3) { v = "a€😀é".as_bytes().to_vec(); } (format!("utf8 {}", hex(&v)), "utf8") }
         };
@@ -1313,6 +1386,75 @@ fn run_child_conn(cx: &mut ChildCtx, st: &mut Streams, input: &[u8], hint: Optio
     }
 }
 
+/// `UMCTL SETCLUSTER` with one MIGRATING range list on a local node, textual or compressed
+fn setcluster_cmd(cx: &mut ChildCtx, textual: bool, rs: &[(usize, usize)]) -> Option<Vec<u8>> {
+    cx.epoch += 1;
+    let node = format!("127.0.0.1:{}", cx.backend_port);
+    let me = format!("127.0.0.1:{}", cx.proxy.port);
+    let meta = MigrationMeta { epoch: cx.epoch, src_proxy_address: me, src_node_address: node.clone(),
+        dst_proxy_address: "127.0.0.1:1".to_string(), dst_node_address: "127.0.0.1:2".to_string() };
+    if textual {
+        let mut c = vec![s("UMCTL"), s("SETCLUSTER"), s("v2"), cx.epoch.to_string().into_bytes(), s("FORCE"), s("mydb"),
+            node.into_bytes(), s("MIGRATING"), rs.len().to_string().into_bytes()];
+        for (a, b) in rs { c.push(format!("{}-{}", a, b).into_bytes()); }
+        for x in meta.into_strings() { c.push(x.into_bytes()); }
+        Some(cmd_bytes(&c))
+    } else {
+        let mut local = HashMap::new();
+        local.insert(node, vec![SlotRange { range_list: raw_range_list(rs), tag: SlotRangeTag::Migrating(meta) }]);
+        let m = ProxyClusterMeta::new(cx.epoch, ClusterMapFlags { force: true, compress: true },
+            ClusterName::try_from("mydb").ok()?, local, HashMap::new(), ClusterConfig::default());
+        let args = m.to_compressed_args().ok()?;
+        let mut c = vec![s("UMCTL"), s("SETCLUSTER")];
+        c.extend(args.into_iter().map(|a| a.into_bytes()));
+        Some(cmd_bytes(&c))
+    }
+}
+
+fn run_child_setcluster(cx: &mut ChildCtx, st: &mut Streams, textual: bool, rs: &[(usize, usize)]) {
+    let op = format!("setcluster {} {}", if textual { "t" } else { "z" },
+        rs.iter().map(|(a, b)| format!("{}-{}", a, b)).collect::<Vec<_>>().join(" "));
+    let data = match setcluster_cmd(cx, textual, rs) { Some(d) => d, None => { st.op(&op, "bad-op"); return; } };
+    let t0 = Instant::now();
+    let mut line = "stalled".to_string();
+    if let Ok(mut c) = TcpStream::connect(("127.0.0.1", cx.proxy.port)) {
+        let _ = c.set_read_timeout(Some(Duration::from_secs(5)));
+        cx.proxy.bytes_sent += data.len() as u64;
+        let _ = c.write_all(&data);
+        let mut buf = [0u8; 4096];
+        line = match c.read(&mut buf) {
+            Ok(0) => "closed".to_string(),
+            Ok(n) if buf[..n].starts_with(b"+OK") => "ok".to_string(),
+            Ok(n) => format!("err {}", hex(&buf[..n.min(40)])),
+            Err(e) if e.kind() == std::io::ErrorKind::WouldBlock || e.kind() == std::io::ErrorKind::TimedOut => "stalled".to_string(),
+            Err(_) => "closed".to_string(),
+        };
+    }
+    cx.walls.push(t0.elapsed().as_millis());
+    if cx.proxy.dead_within(100).is_some() { line = "aborted".to_string(); }
+    st.stats.count(&format!("out.setcluster.{}", line.split(' ').next().unwrap_or("?")));
+    let case = st.cases;
+    let replay = vec![cfg_line(std::mem::size_of::<RespIndex>(), cx.ar), op.clone()];
+    let panics = cx.proxy.new_panics();
+    if line == "stalled" {
+        let served = cx.proxy.served();
+        st.stats.count(if served { "stall.other_connection_served" } else { "stall.other_connection_not_served" });
+        // a second metadata update now blocks on the lock held by the spinning one
+        st.stats.oracle_failure(case, &format!("UMCTL SETCLUSTER neither answered nor closed within 5 s (second connection served: {})", served),
+            if pred_f16e(rs) { "F16e" } else { "" }, replay.clone());
+    } else if line == "aborted" {
+        st.stats.oracle_failure(case, "server_proxy exited on UMCTL SETCLUSTER", "", replay.clone());
+    }
+    for pl in &panics {
+        let fid = if !textual && pred_f16d(rs) && (pl.contains("raw_vec") || pl.contains("capacity overflow") || pl.contains("cluster.rs")) { "F16d" } else { "" };
+        st.stats.oracle_failure(case, &format!("a session task panicked inside set_meta: {}", pl), fid, replay.clone());
+    }
+    if line == "ok" { st.stats.nontrivial_case(&op); }
+    st.op(&op, &line);
+    // the installed migration task (and a possible spinning worker) must not leak into later inputs
+    cx.restart();
+}
+
 fn child_stream(args: &Args, rng: &mut Rng) {
     let mut st = Streams::new(args);
     let bin = match args.extra.get("proxy-bin") {
@@ -1348,6 +1490,10 @@ fn child_stream(args: &Args, rng: &mut Rng) {
                         _ => st.op(&l, "bad-op"),
                     }
                 }
+                ["setcluster", form, rest @ ..] => match parse_ranges(rest) {
+                    Some(rs) => run_child_setcluster(&mut cx, &mut st, *form == "t", &rs),
+                    None => st.op(&l, "bad-op"),
+                },
                 _ => run_inproc_op(&toks, &mut st, &l),
             }
         }
@@ -1412,6 +1558,32 @@ fn child_stream(args: &Args, rng: &mut Rng) {
         st.stats.count(&format!("gen.{}", gen.class));
         st.stats.count(&format!("phase.{}", ph));
         run_child_conn(&mut cx, &mut st, &gen.bytes, gen.hint, gen.class);
+    }
+    // UMCTL SETCLUSTER with a tagged range list (each one is followed by a restart of the child)
+    st.case();
+    let l = cfg_line(es, ar);
+    st.op(&l, "ok");
+    let mut metas: Vec<(bool, Vec<(usize, usize)>)> = vec![
+        (true, vec![(0, 100), (200, 300)]),
+        (false, vec![(100, 199), (300, 300)]),
+        (true, vec![(300, 300), (100, 199)]),
+        (false, vec![(300, 300), (100, 199)]),                // F16d
+        (true, vec![(0, 999_999_999_999_999)]),               // F16e
+        (true, vec![(0, 2_000_000)]),                         // walked, fast
+    ];
+    if args.thorough {
+        metas.push((false, vec![(16383, 0)]));
+        metas.push((false, vec![(0, 18_446_744_073_709_551_615)]));
+        metas.push((true, vec![(16000, 16383), (17000, 9_000_000_000_000_000_000)]));
+        for _ in 0..6 {
+            let n = rng.range(1, 3) as usize;
+            let rs = (0..n).map(|_| (*rng.pick(&[0usize, 50, 199, 300, 16383, 16384, 70000]), *rng.pick(&[0usize, 60, 199, 300, 16383, 16384, 70000]))).collect();
+            metas.push((rng.chance(1, 2), rs));
+        }
+    }
+    for (textual, rs) in metas {
+        st.stats.count(if textual { "gen.setcluster-text" } else { "gen.setcluster-compressed" });
+        run_child_setcluster(&mut cx, &mut st, textual, &rs);
     }
     finish_child(st, cx);
 }
